@@ -220,10 +220,11 @@ pub fn guarded<R>(f: impl FnOnce() -> R) -> Result<R, String> {
 /// A short, stable signature part for a panic message (strip line numbers → file only).
 pub fn panic_sig(msg: &str) -> String {
     // "attempt to add with overflow @ /repo/src/lib.rs:594" -> "attempt to add with overflow@lib.rs"
-    let (m, loc) = match msg.rfind(" @ ") {
+    let (m, loc) = match msg.find(" @ ") {
         Some(i) => (&msg[..i], &msg[i + 3..]),
         None => (msg, ""),
     };
+    let loc = loc.split(" @ ").next().unwrap_or("");
     let file = loc.rsplit('/').next().unwrap_or("");
     let file = file.split(':').next().unwrap_or("");
     let m: String = m.chars().take(60).collect();
